@@ -317,8 +317,8 @@ def parseRes (n e : String) : Option Val := do
 /-- sequential script over the two feeders of one connection.
 ops: `W<hex>:<n>:<err>` Write(buf) whose underlying writer returns (n, err);
      `R<hex>:<n>:<err>` Read(buf) whose underlying reader returns (n, err)  (buf = bytes delivered);
-     `K` Close;  `w…`/`r…` same as W/R but Close arrives while the call is in flight after the source
-     was called (the call returns EOF). -/
+     `K` Close (both feeders);  `w…`/`r…` same as W/R but that feeder is closed while the call is in
+     flight after the source was called (the call returns EOF); the script continues with `K`. -/
 def seqOps : List String → State → State → List String → String
   | [], r, w, acc =>
     " ".intercalate acc.reverse ++ " |R:" ++ ",".intercalate (callsOf r) ++ " |W:" ++ ",".intercalate (callsOf w)
@@ -338,10 +338,10 @@ def seqOps : List String → State → State → List String → String
             seqOps rest r' w (o :: acc)
           else if c == 'w' then
             let (w', o) := doInterrupted w (.str b) v true
-            seqOps rest (closeOp r) w' (o :: acc)
+            seqOps rest r w' (o :: acc)
           else if c == 'r' then
             let (r', o) := doInterrupted r (.str b) v true
-            seqOps rest r' (closeOp w) (o :: acc)
+            seqOps rest r' w (o :: acc)
           else "bad-input"
         | _, _ => "bad-input"
       | _ => "bad-input"
